@@ -75,6 +75,10 @@ def fail(msg):
 #   xmacros  True                       keep the macros of pixman-combine32.h that gen_combine32.py translates
 #                                        as calls of Pixman.Gen.Combine32Macros (nat mode)
 #   out kind "in"                       pointer parameter that is only read
+#   unroll   True                       `for (i = 0; i < K; ++i)` with a literal K <= 16 is unrolled (i a constant)
+#   extern   {name: spec}               calls of functions that are not translated: the function becomes a
+#                                        parameter (an oracle) of the generated definition.  spec = dict(ret=C type,
+#                                        params=[("same", identifier) | ("struct", struct type)])
 #   stages   True                       every if/switch join becomes its own definition <name>_sN
 #   consts   {param: value}             specialise an integer parameter to a constant (e.g. the depth n)
 #   nonnull  [pointer params]           `if (p)` on these is TRUE (caller always passes an address)
@@ -181,6 +185,50 @@ def image_info_target():
 
 TARGETS.append(image_info_target())
 
+def extent_targets():
+    tp = {"pixman_transform_point": dict(ret="pixman_bool_t", params=[("same", "transform"), ("struct", "pixman_vector_t")])}
+    cte = dict(file="pixman/pixman.c", func="compute_transformed_extents", mode="mixed", ptrvals=["transform"],
+               structs={"extents": "pixman_box32_t", "transformed": "box_48_16_t"}, unroll=True, extern=tp)
+    mem = {
+        "image->common.transform": ("transform_p", "ptr"),
+        "image->common.type": ("itype", "image_type_t"),
+        "image->bits.width": ("img_width", "int"),
+        "image->bits.height": ("img_height", "int"),
+        "image->common.repeat": ("repeat_", "pixman_repeat_t"),
+        "image->common.flags": ("image_flags", "uint32_t"),
+        "image->common.filter": ("filter", "pixman_filter_t"),
+        "image->common.filter_params[0]": ("param0", "pixman_fixed_t"),
+        "image->common.filter_params[1]": ("param1", "pixman_fixed_t"),
+    }
+    ae = dict(file="pixman/pixman.c", func="analyze_extent", mode="mixed", drop=["image"], nonnull=["image"],
+              structs={"extents": "pixman_box32_t"}, out={"flags": "inout"}, mem=mem, extern=tp, stages=True)
+    return [cte, ae]
+
+
+TARGETS += extent_targets()
+
+def glyph_cond_targets():
+    G = "pixman/pixman-glyph.c"
+    cnt = {"cache->n_glyphs": ("n_glyphs", "int"), "cache->n_tombstones": ("n_tombstones", "int"),
+           "cache->freeze_count": ("freeze_count", "int")}
+    thaw = dict(cnt)
+    thaw["--cache->freeze_count"] = ("freeze_count_after", "bool")
+    return [
+        dict(kind="cond", file=G, func="pixman_glyph_cache_thaw", name="glyph_thaw_outer", index=0, mode="mixed", mem=thaw,
+             expect=["freeze_count", "n_glyphs", "n_tombstones"]),
+        dict(kind="cond", file=G, func="pixman_glyph_cache_thaw", name="glyph_thaw_dump", index=1, mode="mixed", mem=cnt,
+             expect=["n_tombstones"]),
+        dict(kind="cond", file=G, func="pixman_glyph_cache_thaw", name="glyph_thaw_evict", index=2, mode="mixed", mem=cnt,
+             expect=["n_glyphs"]),
+        dict(kind="cond", file=G, func="pixman_glyph_cache_insert", name="glyph_insert_frozen", index=0, mode="mixed", mem=cnt,
+             expect=["freeze_count"]),
+        dict(kind="cond", file=G, func="pixman_glyph_cache_insert", name="glyph_insert_full", index=4, mode="mixed", mem=cnt,
+             expect=["n_glyphs", "n_tombstones"]),
+    ]
+
+
+TARGETS += glyph_cond_targets()
+
 LEAN_KEYWORDS = {"at", "from", "end", "open", "show", "have", "fun", "let", "then", "do", "in", "if", "else", "by",
                  "at", "with", "match", "where", "for", "def", "theorem", "instance", "structure", "class", "namespace",
                  "section", "import", "mut", "return", "repeat", "calc", "using", "from", "Type", "Prop", "Sort",
@@ -275,7 +323,8 @@ def preprocess(repo, rel, scratch, defs=(), keep_macros=None):
 
 # =============================================================================== lexer
 TOK = re.compile(r"""\s*(?:
-    (0[xX][0-9a-fA-F]+|\d+)([uUlL]*)(?![\w.])      # integer literal
+    ("(?:[^"\\]|\\.)*")                            # string literal (only skipped over)
+  | (0[xX][0-9a-fA-F]+|\d+)([uUlL]*)(?![\w.])      # integer literal
   | ([A-Za-z_]\w*)                                 # identifier
   | (<<=|>>=|\+\+|--|->|<<|>>|\+=|-=|\*=|/=|%=|\|=|&=|\^=|==|!=|<=|>=|&&|\|\||[-+*/%&|^~!()<>=,;{}?:.\[\]])
 )""", re.X)
@@ -292,11 +341,13 @@ def lex(text):
         if not m or m.end() == i:
             fail(f"cannot tokenize: {text[i:i+40]!r}")
         if m.group(1) is not None:
-            out.append(("num", (int(m.group(1), 0), m.group(2).lower(), m.group(1)[:2].lower() == "0x" or (m.group(1)[0] == "0" and len(m.group(1)) > 1))))
-        elif m.group(3) is not None:
-            out.append(("id", m.group(3)))
+            out.append(("str", m.group(1)))
+        elif m.group(2) is not None:
+            out.append(("num", (int(m.group(2), 0), m.group(3).lower(), m.group(2)[:2].lower() == "0x" or (m.group(2)[0] == "0" and len(m.group(2)) > 1))))
+        elif m.group(4) is not None:
+            out.append(("id", m.group(4)))
         else:
-            out.append(("op", m.group(4)))
+            out.append(("op", m.group(5)))
         i = m.end()
     return out
 
@@ -978,7 +1029,13 @@ class Translator:
         self.assigned = []
         self.mem = []                   # [(ast, varname)]
         self.tmp = 0
+        self.local_structs = {}         # local struct variable -> struct type
+        self.ptr_locals = set()         # declared pointer locals (aliases once assigned)
+        self.oracle_log = []            # every use of an oracle, in order
+        self.oracles_used = []          # extern (oracle) functions this function calls, directly or through callees
         self.read_log = []              # names of variables read, in order
+        self.written = set()            # variables certainly assigned on the current path
+        self.input_reads = set()        # variables read while possibly still holding their initial value
         self.aux = []                   # auxiliary (stage) definitions: (name, text)
         self.depth = 0                  # block nesting depth of the statement being translated
         self.aliases = {}               # local pointer alias -> AST it stands for
@@ -1059,6 +1116,8 @@ class Translator:
             fail(f"{self.tgt['func']}: {name} is read before it is assigned")
         ty = self.vars[name]
         self.read_log.append(name)
+        if name not in self.written:
+            self.input_reads.add(name)
         if name in self.varrange:
             lo, hi = self.varrange[name]
             return E(lname(name), ty, max(lo, ty.lo), min(hi, ty.hi))
@@ -1075,6 +1134,56 @@ class Translator:
         return tuple(self.subst(x) if isinstance(x, tuple) else
                      ([self.subst(y) for y in x] if isinstance(x, list) else x) for x in e)
 
+    def is_struct_var(self, n):
+        return n in self.tgt.get("structs", {}) or n in self.local_structs
+
+    def register_struct(self, nm, ty, defined):
+        """member variables `nm_f` (scalars) and `nm_f_k` (1-D arrays of constant size) of a struct variable"""
+        if not (isinstance(ty, tuple) and ty[0] == "struct"):
+            fail(f"{self.tgt['func']}: {nm} is not a struct")
+        body = self.env.structs.get(ty[1])
+        if body is None:
+            fail(f"{self.tgt['func']}: struct {ty[1]} has no visible definition")
+        names = []
+        for f, t in self.env.fields2(ty[1]).items():
+            if t is None:
+                continue
+            fty, np, nd = t
+            if np or not isinstance(fty, CT):
+                continue
+            if nd == 0:
+                names.append(nm + "_" + f)
+            elif nd == 1:
+                m = re.search(r"\b" + re.escape(f) + r"\s*\[\s*(\d+)\s*\]", body)
+                if not m or int(m.group(1)) > 16:
+                    continue
+                names += [f"{nm}_{f}_{k}" for k in range(int(m.group(1)))]
+            else:
+                continue
+            for v in names:
+                if v not in self.vars:
+                    self.vars[v] = fty
+                    if defined:
+                        self.defined.add(v)
+        return names
+
+    def struct_members(self, nm):
+        ty = self.local_structs.get(nm)
+        if ty is None:
+            ty = self.env.resolve([self.tgt["structs"][nm]])
+        out = []
+        body = self.env.structs.get(ty[1], "")
+        for f, t in self.env.fields2(ty[1]).items():
+            if t is None or t[1] or not isinstance(t[0], CT):
+                continue
+            if t[2] == 0:
+                out.append(f)
+            elif t[2] == 1:
+                m = re.search(r"\b" + re.escape(f) + r"\s*\[\s*(\d+)\s*\]", body)
+                if m and int(m.group(1)) <= 16:
+                    out += [f"{f}_{k}" for k in range(int(m.group(1)))]
+        return out
+
     def mem_lookup(self, e):
         for ast, nm in self.mem:
             if ast == e:
@@ -1090,10 +1199,16 @@ class Translator:
             fail(f"{self.tgt['func']}: unknown identifier {e[1]}")
         if e[0] == "deref" and e[1][0] == "id" and e[1][1] in self.tgt.get("out", {}):
             return e[1][1]
-        if e[0] == "field" and e[1][0] == "id" and e[1][1] in self.tgt.get("structs", {}):
+        if e[0] == "field" and e[1][0] == "id" and self.is_struct_var(e[1][1]):
             nm = e[1][1] + "_" + e[2]
             if nm not in self.vars:
                 fail(f"{self.tgt['func']}: struct member {e[1][1]}.{e[2]} unknown")
+            return nm
+        if e[0] == "deref" and e[1][0] == "bin" and e[1][1] == "+" and e[1][2][0] == "field" and \
+                e[1][2][1][0] == "id" and self.is_struct_var(e[1][2][1][1]) and e[1][3][0] == "num":
+            nm = f"{e[1][2][1][1]}_{e[1][2][2]}_{e[1][3][1][0]}"
+            if nm not in self.vars:
+                fail(f"{self.tgt['func']}: struct array member {nm} unknown")
             return nm
         for ast, nm in self.mem:
             if ast == e:
@@ -1434,6 +1549,8 @@ class Translator:
         e = self.subst(e)
         if e[0] == "lean_cond":
             return e[1]
+        if e[0] == "call" and e[1] == "__builtin_expect" and len(e[2]) == 2 and not side_effect(e[2][1]):
+            return self.cond(e[2][0])
         if self.mem_lookup(e) is not None:
             return self.truth(self.ex(e))
         if e[0] == "bin" and e[1] in ("&&", "||"):
@@ -1463,6 +1580,8 @@ class Translator:
             return "True"
         if e[0] == "id" and e[1] in self.tgt.get("null", []):
             return "False"
+        if e[0] == "id" and e[1] in self.ptrvals:
+            return f"{lname(e[1])} ≠ 0"
         return self.truth(self.ex(e))
 
     def boolval(self, e):
@@ -1549,17 +1668,29 @@ class Translator:
                 if c.const is None or pt.wrap(c.const) != fi.consts[pn]:
                     fail(f"{self.tgt['func']}: {fi.cname} is specialised to {pn} = {fi.consts[pn]}; argument differs")
             elif pk == "struct":
-                if not (a[0] == "id" and a[1] in self.tgt.get("structs", {})):
-                    fail(f"{self.tgt['func']}: struct argument for {pn} of {fi.cname} must be a struct parameter of the caller")
+                base = a[1] if a[0] == "id" else (a[1][1] if a[0] == "addr" and a[1][0] == "id" else None)
+                if base is None or not self.is_struct_var(base):
+                    fail(f"{self.tgt['func']}: struct argument for {pn} of {fi.cname} must be a struct variable or its address")
                 pre = pn + "_"
                 for i in fi.inputs:
                     if i.startswith(pre):
-                        vals[i] = atom(self.read_var(a[1] + "_" + i[len(pre):]).s)
+                        cv = base + "_" + i[len(pre):]
+                        if cv in self.vars and cv not in self.defined and base in self.local_structs:
+                            # uninitialised member of a local struct passed by address: the callee can only hand the
+                            # indeterminate value back (reading it would be undefined in C): 0 stands for it
+                            vals[i] = "0"
+                        else:
+                            vals[i] = atom(self.conv(self.read_var(cv), fi.input_types[i], explicit=True).s)
                 for o in fi.outs:
                     if o.startswith(pre) and o not in fi.param_outs:
-                        outmap[o] = a[1] + "_" + o[len(pre):]
+                        outmap[o] = base + "_" + o[len(pre):]
                         if outmap[o] not in self.vars:
                             fail(f"{self.tgt['func']}: no member {outmap[o]}")
+                        if self.vars[outmap[o]] != fi.out_types[o]:
+                            fail(f"{self.tgt['func']}: member {outmap[o]} has another type than {fi.cname} stores")
+            elif pk == "same":
+                if a != ("id", pt):
+                    fail(f"{self.tgt['func']}: {fi.cname} stands for the call with {pn} = {pt}; argument differs")
             else:
                 fail(f"{self.tgt['func']}: cannot pass parameter {pn} of {fi.cname} (kind {pk})")
         for i in fi.inputs:
@@ -1568,6 +1699,15 @@ class Translator:
                 if i not in [nm for _, nm in self.mem]:
                     fail(f"{self.tgt['func']}: {fi.cname} reads memory operand {i}, unknown to the caller")
                 vals[i] = atom(self.read_var(i).s)
+        for o in fi.oracles:
+            vals[o] = o
+            self.oracle_log.append(o)
+            if o not in self.oracles_used:
+                self.oracles_used.append(o)
+        if fi.is_oracle:
+            self.oracle_log.append(fi.lean)
+            if fi.lean not in self.oracles_used:
+                self.oracles_used.append(fi.lean)
         ins = [vals[i] for i in fi.inputs]
         if fi.has_ok:
             self.uses_ok.append(f"{fi.lean}_ok " + " ".join(ins))
@@ -1591,6 +1731,9 @@ class FuncInfo:
         self.consts = {}
         self.param_outs = []
         self.mem = []
+        self.oracles = []          # oracle parameters (names) this function takes
+        self.is_oracle = False
+        self.otype = None          # Lean type of an oracle
 
 
 # =============================================================================== statements
@@ -1609,6 +1752,57 @@ def contains_exit(st, ok_mode):
     if k == "switch":
         return any(contains_exit(x, ok_mode) for x in st[2] if x[0] not in ("case", "default"))
     return False
+
+
+def is_const_expr(e):
+    if not isinstance(e, tuple) or not e:
+        return True
+    if e[0] in ("id", "call", "deref", "field", "assign", "preinc", "postinc", "addr"):
+        return False
+    if e[0] == "num":
+        return True
+    return all(is_const_expr(x) for x in e[1:] if isinstance(x, tuple))
+
+
+def always_exits(st):
+    if st is None:
+        return False
+    if st[0] == "return":
+        return True
+    if st[0] == "block":
+        return bool(st[1]) and always_exits(st[1][-1])
+    if st[0] == "if":
+        return always_exits(st[2]) and always_exits(st[3])
+    return False
+
+
+def is_empty(st):
+    return st is None or (st[0] == "block" and all(is_empty(x) for x in st[1]))
+
+
+def tailret(st, var, codes):
+    """st with every `return <constant>` in tail position replaced by `var = <code>`; None if st has a
+    return elsewhere (or of a non-constant)"""
+    if st is None:
+        return ("block", [])
+    k = st[0]
+    if k == "return":
+        if st[1] is None or not is_const_expr(st[1]):
+            return None
+        codes.append(st[1])
+        return ("expr", ("assign", "=", ("id", var), ("num", (len(codes), "", False))))
+    if k == "block":
+        if not st[1]:
+            return st
+        if any(contains_exit(x, False) for x in st[1][:-1]):
+            return None
+        last = tailret(st[1][-1], var, codes)
+        return None if last is None else ("block", st[1][:-1] + [last])
+    if k == "if":
+        a = tailret(st[2], var, codes)
+        b = tailret(st[3], var, codes)
+        return None if a is None or b is None else ("if", st[1], a, b)
+    return None if contains_exit(st, False) else st
 
 
 def has_break(st):
@@ -1774,7 +1968,11 @@ class Body:
                         walk_e(y)
 
         def lv(e):
-            if e[0] == "id" and e[1] in self._local:
+            if e[0] == "id" and (e[1] in self._local or e[1] in tr.ptr_locals or e[1] in tr.aliases):
+                return None
+            if e[0] == "id" and e[1] in tr.local_structs:
+                for f in tr.struct_members(e[1]):
+                    add(f"{e[1]}_{f}")
                 return None
             return tr.lvalue(e)
 
@@ -1833,6 +2031,7 @@ class Body:
         fn = tr.tgt["func"]
         if kind == "block":
             saved_vars = dict(tr.vars)
+            saved_ls = (dict(tr.local_structs), set(tr.ptr_locals))
             saved_alias = dict(tr.aliases)
             inner = st[1]
             tr.depth += 1
@@ -1846,6 +2045,7 @@ class Body:
                         tr.defined.discard(v)
                         tr.varrange.pop(v, None)
                 tr.aliases = dict(saved_alias)
+                tr.local_structs, tr.ptr_locals = dict(saved_ls[0]), set(saved_ls[1])
                 tr.depth = my_depth - 1
                 return self.seq(rest, k)
             after.cheap = self.cheap_cont(rest, k)
@@ -1857,6 +2057,18 @@ class Body:
                 if nm in tr.vars or nm in tr.aliases:
                     fail(f"{fn}: local {nm} shadows another variable")
                 tr.aliases[nm] = tr.subst(init)
+                return self.seq(rest, k)
+            if nptr and init is None:
+                # pointer local: becomes an alias when it is assigned an access path
+                if nm in tr.vars or nm in tr.aliases or nm in tr.ptr_locals:
+                    fail(f"{fn}: local {nm} shadows another variable")
+                tr.ptr_locals.add(nm)
+                return self.seq(rest, k)
+            if not nptr and isinstance(ty, tuple) and ty[0] == "struct" and init is None:
+                if tr.is_struct_var(nm) or nm in tr.vars:
+                    fail(f"{fn}: local {nm} shadows another variable")
+                tr.local_structs[nm] = ty
+                tr.register_struct(nm, ty, defined=False)
                 return self.seq(rest, k)
             if nptr or not isinstance(ty, CT):
                 fail(f"{fn}: declaration of {nm}: only integer locals are supported")
@@ -1916,6 +2128,30 @@ class Body:
             return self.seq([("decl", (ty, 0), sw, st[1]), chain] + rest, k)
         if kind == "break":
             fail(f"{fn}: `break` outside a supported position")
+        if kind == "for" and tr.tgt.get("unroll"):
+            init, c, step, body = st[1], st[2], st[3], st[4]
+            z = ("num", (0, "", False))
+            okh = init is not None and init[0] == "assign" and init[1] == "=" and init[2][0] == "id" and init[3] == z
+            iv = init[2][1] if okh else None
+            okh = okh and c is not None and c[0] == "bin" and c[1] == "<" and c[2] == ("id", iv) and c[3][0] == "num" and \
+                step in (("preinc", "+", ("id", iv)), ("postinc", "+", ("id", iv)))
+            if not okh or iv not in tr.vars or not 0 < c[3][1][0] <= 16:
+                fail(f"{fn}: for loop cannot be unrolled")
+            if has_break(body):
+                fail(f"{fn}: break in an unrolled loop")
+
+            def inst(e, kk):
+                if e == ("id", iv):
+                    return ("num", (kk, "", False))
+                if isinstance(e, tuple):
+                    if e and e[0] in ("assign", "preinc", "postinc") and e[2] == ("id", iv):
+                        fail(f"{fn}: the loop variable is assigned in the body")
+                    return tuple(inst(x, kk) if isinstance(x, tuple) else
+                                 ([inst(y, kk) for y in x] if isinstance(x, list) else x) for x in e)
+                return e
+            copies = [("block", [inst(body, kk)]) for kk in range(c[3][1][0])]
+            tr.defined.discard(iv)
+            return self.seq(copies + rest, k)
         if kind == "for" and not tr.tgt.get("loop"):
             # search loop: `for (i = 0; i < N; ++i) if (C(i)) { S; break; }`  =  `if (exists i < N, C(i)) S`
             init, c, step, body = st[1], st[2], st[3], st[4]
@@ -1984,6 +2220,7 @@ class Body:
 
     def bind(self, v, rhs_s, rest, k, mark, rng=None):
         tr = self.tr
+        tr.written.add(v)
         if rng is not None and tr.tgt.get("ranges") and tr.vars[v].lo <= rng[0] and rng[1] <= tr.vars[v].hi:
             tr.varrange[v] = rng
         else:
@@ -2002,6 +2239,24 @@ class Body:
         mark = len(tr.uses_ok)
         if e[0] == "comma":
             return self.seq([("expr", e[1]), ("expr", e[2])] + rest, k)
+        if e[0] == "assign" and e[1] == "=" and e[2][0] == "id" and e[2][1] in tr.ptr_locals:
+            if side_effect(e[3]):
+                fail(f"{fn}: side effect in a pointer assignment")
+            tr.aliases[e[2][1]] = tr.subst(e[3])
+            return self.seq(rest, k)
+        if e[0] == "assign" and e[1] == "=" and e[2][0] == "id" and e[2][1] in tr.local_structs:
+            # struct copy `x = *p` / `x = y`: member by member
+            src = e[3][1] if e[3][0] == "deref" else e[3]
+            if not (src[0] == "id" and tr.is_struct_var(src[1])):
+                fail(f"{fn}: struct assignment from something that is not a struct variable")
+            mem = tr.struct_members(e[2][1])
+            if mem != tr.struct_members(src[1]):
+                fail(f"{fn}: struct assignment between different struct types")
+            cp = [("expr", ("assign", "=", ("id", f"{e[2][1]}_{f}"), ("id", f"{src[1]}_{f}"))) for f in mem]
+            return self.seq(cp + rest, k)
+        if e[0] == "assign" and e[1] == "=" and e[3][0] == "assign" and e[3][1] == "=":
+            # a = b = c
+            return self.seq([("expr", e[3]), ("expr", ("assign", "=", e[2], e[3][2]))] + rest, k)
         if e[0] == "assign":
             op, lhs, rhs = e[1], e[2], e[3]
             v = tr.lvalue(lhs)
@@ -2042,6 +2297,7 @@ class Body:
             for idx, v in enumerate(outs):
                 lines.append(f"let {lname(v)} := " + t + "".join(".2" for _ in range(idx)) + (".1" if idx < n - 1 else ""))
                 tr.varrange.pop(v, None)
+                tr.written.add(v)
                 tr.defined.add(v)
                 if v not in tr.assigned:
                     tr.assigned.append(v)
@@ -2081,6 +2337,7 @@ class Body:
                 val = proj
             lines.append(f"let {lname(v)} := {val}")
             tr.varrange.pop(v, None)
+            tr.written.add(v)
             if v not in tr.assigned:
                 tr.assigned.append(v)
             tr.defined.add(v)
@@ -2139,6 +2396,16 @@ class Body:
         if c[0] == "bin" and c[1] == "&&" and side_effect(c[3]) and not side_effect(c[2]):
             inner = ("if", c[3], A, B)
             return self.seq([("if", c[2], ("block", [inner]), B)] + rest, k)
+        inner = c[2] if (c[0] == "un" and c[1] == "!") else c
+        if inner[0] == "call" and tr.tgt.get("calls", {}).get(inner[1], inner[1]) in tr.funcs and \
+                (tr.funcs[tr.tgt.get("calls", {}).get(inner[1], inner[1])].outs):
+            fi_ = tr.funcs[tr.tgt.get("calls", {}).get(inner[1], inner[1])]
+            if not isinstance(fi_.ret, CT):
+                fail(f"{fn}: condition on a call without an integer result")
+            tr.tmp += 1
+            tv = f"c{tr.tmp}"
+            c2 = ("id", tv) if inner is c else ("un", "!", ("id", tv))
+            return self.seq([("decl", (fi_.ret, 0), tv, inner), ("if", c2, A, B)] + rest, k)
         if side_effect(c):
             h = self.hoist(c)
             if h is None:
@@ -2156,12 +2423,78 @@ class Body:
         exits = contains_exit(A, self.ok) or contains_exit(Bs, self.ok)
         # continuation cheap to duplicate: nothing follows but building the result
         exits = exits or self.cheap_cont(rest, k)
-        state = (dict(tr.vars), set(tr.defined), dict(tr.varrange))
+        state = (dict(tr.vars), set(tr.defined), dict(tr.varrange), set(tr.written))
 
         def restore():
             tr.vars = dict(state[0])
             tr.defined = set(state[1])
             tr.varrange = dict(state[2])
+            tr.written = set(state[3])
+        guard = (always_exits(A) and is_empty(B)) or (always_exits(B) and is_empty(A))
+        if exits and not guard and not self.ok and not self.cheap_cont(rest, k):
+            codes = []
+            tr.tmp += 1
+            rv = f"ret{tr.tmp}"
+            st2 = tailret(("if", c, A, B), rv, codes)
+            if st2 is not None and codes and not contains_exit(st2, False):
+                z = ("num", (0, "", False))
+                tests = [("if", ("bin", "==", ("id", rv), ("num", (i + 1, "", False))), ("return", e), None)
+                         for i, e in enumerate(codes)]
+                # locals assigned on the continuing paths only: give them a (never used) value on the returning ones
+                acc = []
+                self._local = {rv}
+                self.assigned_in(st2, acc)
+                inits = [("expr", ("assign", "=", ("id", v), z)) for v in acc
+                         if v in tr.vars and v not in tr.defined and v != rv]
+                return self.seq([("decl", (INT, 0), rv, z)] + inits + [st2] + tests + rest, k)
+        if exits and tr.tgt.get("stages") and not self.ok and not self.cheap_cont(rest, k):
+            # both branches may fall through into a large continuation: the continuation becomes its own
+            # definition (a join point), called from every branch that reaches it
+            cap = {}
+
+            def kcap(tag):
+                def kc():
+                    cap[tag] = (dict(tr.vars), set(tr.defined), set(tr.written))
+                    return "⟦K⟧"
+                return kc
+            aux0 = len(tr.aux)
+            tmp0 = tr.tmp
+            ta = self.seq([A], kcap("a"))
+            restore()
+            tb = self.seq([Bs], kcap("b"))
+            restore()
+            if "a" in cap and "b" in cap:
+                va, da, wa = cap["a"]
+                vb, db, wb = cap["b"]
+                tr.vars = {v: t for v, t in va.items() if vb.get(v) == t}
+                tr.defined = {v for v in (da & db) if v in tr.vars}
+                tr.written = wa & wb
+                tr.varrange = {}
+                rmark2 = len(tr.read_log)
+                omark = len(tr.oracle_log)
+                entry_defined = set(tr.defined)
+                body = self.seq(rest, k)
+                ins = []
+                for n_ in tr.read_log[rmark2:]:
+                    if n_ in entry_defined and n_ not in ins:
+                        ins.append(n_)
+                ors = []
+                for o in tr.oracle_log[omark:]:
+                    if o not in ors:
+                        ors.append(o)
+                sname = f"{lname(tr.tgt.get('name', tr.tgt['func']))}_k{len(tr.aux) + 1}"
+
+                def aty(v):
+                    return ("Nat → " if v in tr.mem_indexed else "") + tr.ltype(tr.vars[v] if v in tr.vars else va[v])
+                sargs = " ".join(f"({lname(v)} : {aty(v)})" for v in ins) + \
+                    "".join(f" ({lname(o)} : {tr.funcs[o].otype})" for o in ors)
+                tr.aux.append((sname, f"/-- join point of `{tr.tgt['func']}`: the rest of the function after an "
+                                      f"if/switch both of whose sides may reach it -/\ndef {sname} {sargs} : ⟦RTY⟧ :=\n{self.ind(body)}\n"))
+                callk = f"{sname} " + " ".join([lname(v) for v in ins] + [lname(o) for o in ors])
+                ta, tb = ta.replace("⟦K⟧", callk), tb.replace("⟦K⟧", callk)
+                return self.okwrap(mark, f"if {cs} then\n{self.ind(ta)}\nelse\n{self.ind(tb)}")
+            del tr.aux[aux0:]
+            tr.tmp = tmp0
         if exits:
             # continuation is placed in every branch that falls through
             ta = self.seq([A] + rest, k)
@@ -2194,6 +2527,10 @@ class Body:
             for v in W:
                 if v not in tr.defined:
                     raise UndefInJoin(v)
+            for v in W:
+                tr.read_log.append(v)
+                if v not in tr.written:
+                    tr.input_reads.add(v)
             return lname(W[0]) if len(W) == 1 else "(" + ", ".join(lname(v) for v in W) + ")"
         if self.ok:
             # assertions inside the branches cannot occur here (exits would be true); calls with _ok may
@@ -2208,10 +2545,13 @@ class Body:
             try:
                 ta = self.seq([A], tup)
                 da = set(tr.defined)
+                wa = set(tr.written)
                 restore()
                 tb = self.seq([Bs], tup)
                 db = set(tr.defined)
+                wb = set(tr.written)
                 restore()
+                tr.written |= (wa & wb)
                 break
             except UndefInJoin as u:
                 restore()
@@ -2325,7 +2665,44 @@ def split_top(s):
     return parts
 
 
+def make_oracles(env, tgt, funcs):
+    """FuncInfo of every `extern` function of the target: a parameter of the generated definition"""
+    out = dict(funcs)
+    helper = Translator(env, tgt)
+    for oname, spec in tgt.get("extern", {}).items():
+        fo = FuncInfo()
+        fo.cname, fo.lean, fo.mode, fo.is_oracle = oname, lname(oname), tgt.get("mode", "int"), True
+        fo.ret = env.resolve(spec["ret"].split())
+        if not isinstance(fo.ret, CT):
+            fail(f"{oname}: oracle result type must be an integer type")
+        fo.ret_ltype = helper.ltype(fo.ret)
+        for idx, par in enumerate(spec["params"]):
+            pn = f"p{idx}"
+            if par[0] == "same":
+                fo.cparams.append((pn, "same", par[1]))
+            elif par[0] == "struct":
+                ty = env.resolve([par[1]])
+                tmp = Translator(env, dict(tgt, structs={pn: par[1]}))
+                mem = tmp.register_struct(pn, ty, True)
+                for v in mem:
+                    fo.inputs.append(v)
+                    fo.input_types[v] = tmp.vars[v]
+                    fo.outs.append(v)
+                    fo.out_types[v] = tmp.vars[v]
+                    fo.ltypes[v] = helper.ltype(tmp.vars[v])
+                fo.cparams.append((pn, "struct", ty))
+            else:
+                fail(f"{oname}: oracle parameter kind {par[0]} unknown")
+        fo.otype = " → ".join([fo.ltypes[v] for v in fo.inputs] +
+                              [" × ".join([fo.ret_ltype] + [fo.ltypes[v] for v in fo.outs])])
+        if oname in out:
+            fail(f"{oname}: both translated and declared extern")
+        out[oname] = fo
+    return out
+
+
 def translate_function(env, tgt, funcs):
+    funcs = make_oracles(env, tgt, funcs)
     name = tgt["func"]
     header, ptext, btext = find_function(env.text, name)
     hw = [w for w in header if w not in QUALS]
@@ -2472,6 +2849,8 @@ def translate_function(env, tgt, funcs):
             for o in final_outs:
                 if o not in tr.defined:
                     fail(f"{name}: result {o} has no value on some path")
+                if o not in tr.written:
+                    tr.input_reads.add(o)
             if not parts:
                 fail(f"{name}: void function without results")
             return parts[0] if len(parts) == 1 else "(" + ", ".join(parts) + ")"
@@ -2518,10 +2897,10 @@ def translate_function(env, tgt, funcs):
             inputs.append(nm)
         elif k == "struct":
             for v in param_vars:
-                if v.startswith(nm + "_") and lname(v) in used and v not in inputs:
+                if v.startswith(nm + "_") and v in tr.input_reads and v not in inputs:
                     inputs.append(v)
     for _, nm in tr.mem:
-        if lname(nm) in used and nm in tr.read_log:
+        if nm in tr.input_reads or (nm in tr.mem_indexed and nm in tr.read_log):
             inputs.append(nm)
     oktext = None
     if has_assert:
@@ -2533,8 +2912,9 @@ def translate_function(env, tgt, funcs):
                     if v.startswith(nm + "_") and lname(v) in used2 and v not in inputs:
                         inputs.append(v)
     fi.cparams = cparams
+    inputs = list(inputs) + list(tr.oracles_used)
     fi.inputs = inputs
-    fi.input_types = {v: param_vars[v] for v in inputs}
+    fi.input_types = {v: param_vars[v] for v in inputs if v in param_vars}
     fi.outs = final_outs
     fi.out_types = {v: param_vars[v] for v in final_outs}
     fi.ret = ret
@@ -2546,20 +2926,97 @@ def translate_function(env, tgt, funcs):
     rty = " × ".join(rtypes)
     def argty(v):
         return ("Nat → " if v in tr.mem_indexed else "") + tr.ltype(param_vars[v])
-    args = " ".join(f"({lname(v)} : {argty(v)})" for v in inputs)
-    fi.ltypes = {v: tr.ltype(param_vars[v]) for v in list(inputs) + list(final_outs)}
+    args = " ".join(f"({lname(v)} : {argty(v)})" for v in inputs if v in param_vars)
+    for o in tr.oracles_used:
+        if o not in funcs or not funcs[o].is_oracle:
+            fail(f"{name}: a callee needs the extern function {o}; declare it under `extern` here too")
+        args += f" ({lname(o)} : {funcs[o].otype})"
+    fi.oracles = list(tr.oracles_used)
+    fi.ltypes = {v: tr.ltype(param_vars[v]) for v in list(inputs) + list(final_outs) if v in param_vars}
     fi.ret_ltype = None if ret is None or ret == "malloc" else tr.ltype(ret)
-    sig_c = ", ".join([f"{v} : {param_vars[v].cname()}" for v in inputs] +
+    sig_c = ", ".join([f"{v} : {param_vars[v].cname()}" if v in param_vars else f"{v} : extern function" for v in inputs] +
                       [f"{c} = {v} (specialised)" for c, v in tgt.get("consts", {}).items()])
     res_c = ", ".join((["malloc called : 0/1, size : uint64_t"] if ret == "malloc" else [f"return : {ret.cname()}"] if ret is not None else []) + [f"{o} : {param_vars[o].cname()}" for o in final_outs])
     pre = "".join(f"  Precondition: {v} >= 0." for v in tgt.get("nonneg", [])) + \
           "".join(f"  Precondition: {lo} <= {v} <= {hi}." for v, (lo, hi) in tgt.get("ranges", {}).items())
     doc = f"/-- `{tgt['file']}:{name}` ({fi.mode} mode).  Arguments: {sig_c}.  Result: ({res_c}).{pre} -/"
-    out = "".join(t + "\n" for _, t in tr.aux) + f"{doc}\ndef {fi.lean} {args} : {rty} :=\n{Body.ind(None, text)}\n"
+    out = "".join(t.replace("⟦RTY⟧", rty) + "\n" for _, t in tr.aux) + f"{doc}\ndef {fi.lean} {args} : {rty} :=\n{Body.ind(None, text)}\n"
     if has_assert:
         out += f"\n/-- every `assert` reached by `{name}` holds (`false` = the C function aborts) -/\n" \
                f"def {fi.lean}_ok {args} : Bool :=\n{Body.ind(None, oktext)}\n"
     fi.text = out
+    return fi
+
+
+def translate_condition(env, tgt):
+    """kind "cond": the condition of the k-th `if`/`while` of a function (in source order), as a Bool-valued
+    definition of the memory operands it reads.  `expect`: identifiers that must occur in it (so that an inserted
+    or removed statement, which shifts the numbering, fails closed instead of selecting another test)"""
+    name = tgt["func"]
+    header, ptext, btext = find_function(env.text, name)
+    toks = lex(btext)
+    conds = []
+    i = 0
+    while i < len(toks):
+        if toks[i] in (("id", "if"), ("id", "while")) and i + 1 < len(toks) and toks[i + 1] == ("op", "("):
+            j, d = i + 2, 1
+            while j < len(toks) and d:
+                if toks[j] == ("op", "("):
+                    d += 1
+                elif toks[j] == ("op", ")"):
+                    d -= 1
+                j += 1
+            conds.append(toks[i + 2:j - 1])
+            i += 2
+        else:
+            i += 1
+    k = tgt["index"]
+    if k >= len(conds):
+        fail(f"{name}: has only {len(conds)} conditions")
+    ctoks = conds[k]
+    ids = {t[1] for t in ctoks if t[0] == "id"}
+    for w in tgt.get("expect", []):
+        if w not in ids:
+            fail(f"{name}: condition {k} does not mention {w} (the numbering of the tests changed?)")
+    pp = Parser(ctoks, env)
+    ast = pp.expr()
+    if pp.i != len(ctoks):
+        fail(f"{name}: condition {k} not understood")
+    params = parse_params(ptext, env)
+    tr = Translator(env, tgt)
+    roots = {pn: (pt, pnp) for pn, pt, pnp in params}
+    for cexpr, spec in tgt.get("mem", {}).items():
+        q = Parser(lex(cexpr), env)
+        mast = q.expr()
+        if q.i != len(q.t):
+            fail(f"{name}: memory operand {cexpr!r} not understood")
+        nm, tyname = spec
+        if tyname == "bool":
+            cty = INT
+        elif tyname == "ptr":
+            cty = ULONG
+            t = env.path_type(mast, roots)
+            if not (t[1] >= 1 and t[2] == 0):
+                fail(f"{name}: memory operand {cexpr!r} is not a pointer")
+        else:
+            cty = env.resolve(tyname.split())
+            t = env.path_type(mast, roots)
+            if not isinstance(cty, CT) or t[1] or t[2] or t[0] != cty:
+                fail(f"{name}: memory operand {cexpr!r} has C type {t}, not {tyname}")
+        tr.mem.append((mast, nm))
+        tr.vars[nm] = cty
+        tr.defined.add(nm)
+    ctext = tr.cond(ast)
+    ins = []
+    for n_ in tr.read_log:
+        if n_ not in ins:
+            ins.append(n_)
+    fi = FuncInfo()
+    fi.cname, fi.lean, fi.mode = name, lname(tgt["name"]), tr.mode
+    args = " ".join(f"({lname(v)} : {tr.ltype(tr.vars[v])})" for v in ins)
+    sig = ", ".join(f"{v} : {tr.vars[v].cname()}" for v in ins)
+    fi.text = (f"/-- `{tgt['file']}:{name}`, condition of test #{k} ({tr.mode} mode).  Arguments: {sig}. -/\n"
+               f"def {fi.lean} {args} : Bool :=\n  decide ({ctext})\n")
     return fi
 
 
@@ -2600,6 +3057,10 @@ def main():
                 envs[key] = Env(preprocess(repo, tgt["file"], scratch, tgt.get("defs", ()),
                                            keep_macros=set(xm) if tgt.get("xmacros") else None))
             env = envs[key]
+            if tgt.get("kind") == "cond":
+                fi = translate_condition(env, tgt)
+                chunks.append(fi.text)
+                continue
             fi = translate_function(env, tgt, funcs)
             funcs[tgt.get("name", tgt["func"])] = fi
             chunks.append(fi.text)
